@@ -124,9 +124,11 @@ Fixpoint evict (victims : list nat) (excess : nat) (ca : list entry) : list entr
 (** the expiry used for the sleep command cache.
     before the repair: SeenCacheTTL.  repaired: at least twice the timestamp
     window (a command stays acceptable for up to 2*window after it was first
-    accepted). *)
+    accepted) plus a minute for a handler that is between its timestamp check
+    and its marking. *)
+Definition mark_slack : Z := 60 * second.
 Definition sleep_expiry_pre_fix (cfg : fcfg) : Z := f_ttl cfg.
-Definition sleep_expiry (cfg : fcfg) : Z := Z.max (f_ttl cfg) (2 * f_window cfg).
+Definition sleep_expiry (cfg : fcfg) : Z := Z.max (f_ttl cfg) (2 * f_window cfg + mark_slack).
 
 Definition cleanup_with (expiry : fcfg -> Z) (cfg : fcfg) (now : Z) (victims : list nat) (ca : list entry) : list entry :=
   let ca' := expire now (expiry cfg) ca in
@@ -142,14 +144,20 @@ Definition forward_targets (cfg : fcfg) (peers : list N) (from : N) (c : cmd) : 
   filter (fun p => negb (p =? from)%N && negb (existsb (N.eqb p) (c_seenby c ++ [f_local cfg]))) peers.
 
 (** repaired order: loop check, verification, then check-and-mark.
-    Result: new cache and [Some targets] when the command is accepted (the
-    handler returns true and forwards to [targets]). *)
-Definition handle (cfg : fcfg) (now : Z) (peers : list N) (from : N) (c : cmd) (ca : list entry)
+    The verification reads the clock at [vnow], the marking at [mnow] (the same
+    goroutine, a moment later; other handlers and cleanup passes may run in
+    between).  Result: new cache and [Some targets] when the command is
+    accepted (the handler returns true and forwards to [targets]). *)
+Definition handle_split (cfg : fcfg) (vnow mnow : Z) (peers : list N) (from : N) (c : cmd) (ca : list entry)
   : list entry * option (list N) :=
   if existsb (N.eqb (f_local cfg)) (c_seenby c) then (ca, None)
-  else if negb (verify cfg now c) then (ca, None)
-  else let '(ca', fresh) := mark now (c_origin c) (c_id c) from ca in
+  else if negb (verify cfg vnow c) then (ca, None)
+  else let '(ca', fresh) := mark mnow (c_origin c) (c_id c) from ca in
        if fresh then (ca', Some (forward_targets cfg peers from c)) else (ca', None).
+
+(** a handler running without interruption *)
+Definition handle (cfg : fcfg) (now : Z) (peers : list N) (from : N) (c : cmd) (ca : list entry)
+  : list entry * option (list N) := handle_split cfg now now peers from c ca.
 
 (** order before the repairs: mark first, then loop check, then verification
     (with the old timestamp test). *)
